@@ -307,7 +307,7 @@ Definition added_diag_precond (n : nat) : bool * nat :=
 (* functions/_solve.py _solve, given the result of the class's own `solve` (branch 1) and `_solve` (branch 3) *)
 Definition solve_fn (c : cls) (own class_solve : method) : method :=
   match c with
-  | CChol _ | CTriDense _ | CTriOver _ => own
+  | CChol _ | CTriDense _ | CTriOver _ | CDiag _ | CIdentity _ => own     (* isinstance(op, (Chol, Triangular)) *)
   | _ => if ~~ fast_solves s || (csize c <= max_cholesky_size s) then MCholesky (cholesky_plan c)
          else class_solve
   end.
@@ -319,8 +319,8 @@ Fixpoint route (c : cls) : method * method :=
   | CAddedDiag n =>
       let: (p, r) := added_diag_precond n in
       let cs := if p then MCG true r else MCG (default_preconditioner s) 0 in (solve_fn c cs cs, cs)
-  | CDiag n => (MDiagDiv, MCG (default_preconditioner s) 0)             (* Diag has no _solve override *)
-  | CIdentity n => (MIdentity, MCG (default_preconditioner s) 0)
+  | CDiag n => (MDiagDiv, MDiagDiv)        (* DiagLinearOperator is a TriangularLinearOperator: _solve = self.solve *)
+  | CIdentity n => (MIdentity, MIdentity)
   | CChol n => (MCholFactor, MCholFactor)
   | CTriDense n => (MTriSubst, MTriSubst)
   | CTriOver b => let m := MTriViaBase (route b).1 in (m, m)
